@@ -277,8 +277,13 @@ class C08(World):
         g1 = fw.normalise_loaded(loaded, kind)
         try:
             got = fw.content(g1)
+        except (KeyboardInterrupt, SystemExit, MemoryError):
+            raise
         except TypeError as e:
             ctx.fail("gen1", fmt + "-type", f"loaded object {type(g1).__name__}: {e}")
+        except Exception as e:
+            # the loaded object cannot even be asked where its instances are (a disconnected graph ...)
+            ctx.fail("gen1", fmt + "-unreadable", f"loaded {type(g1).__name__} raises when read: {type(e).__name__}: {e}")
         ctx.reach(kind, shape or r.get("colors"), r.get("colors"), fmt, cfg["route"], cfg["transport"])
         ctx.count("check:gen1")
         tol1 = fmt_tol(fmt, cfg.get("digits"))
